@@ -84,6 +84,13 @@ CHECKS = {
         note="Trusted: the reference model; both the layer and the snapshot reading of 'exactly as before' are accepted when another thread assigned the variable meanwhile; overlay-only keys missing from iteration are a reported weak class, not a violation; data races inside one Env method are not explored (lock-step schedule).",
         design="2/C11",
     ),
+    "C12": dict(
+        category="exploration",
+        technique="stateful model-based testing (Hypothesis RuleBasedStateMachine) per backend with harness-owned flusher scheduling (flusher threads held at run()/dump() entry so reads race with in-flight flushes deterministically) + pure round-trip property of the lazyjson index",
+        text="Histories of append (any Unicode incl. astral, combining, control characters, quotes, multi-line, blanks), flush (background / at exit), wait, clear, reopen and reads (len, h[i], h[-i], slices, items(), all_items(), inps[i], on-disk decode) under buffer sizes 1-8, every $HISTCONTROL subset, ignore regex, store-stdout and save-cwd are run against the JSON and SQLite backends and a reference list with a sound tolerance for the exclusion rules; len/index consistency is checked at every point including while a flusher is held inside dump(); after flush+wait the disk equals memory. lazyjson: every node of any JSON-able object is addressed through the embedded offsets/sizes index (key, index, slice, iteration, load at every level) and must equal the original. Six recorded defects.",
+        note="Trusted: the reference list and the exclusion-rule tolerance (every reading of the rules is accepted); flusher interleavings are chosen by Hypothesis at function boundaries (run/dump entry), not inside dump(); SQLite runs with PRAGMA synchronous=OFF (durability is C13); every operation is under a 10 s bound so a deadlock is a recorded failure.",
+        design="2/C12",
+    ),
     "C13": dict(
         category="fault_enumeration",
         technique="fault injection with exhaustive crash-point and single-fault enumeration per generated scenario (fork + counting wrappers around file-system entry points; strace syscall-level kill injection for SQLite)",
